@@ -258,6 +258,33 @@ pub fn run(args: &Args) -> i32 {
                 }
             }
         }
+        // blacklisting: one node refuses everything from one of its mesh neighbours; only done when the mesh minus
+        // that link still connects all real nodes, so every subscriber can still get every message another way
+        let mut blacklisted: Option<(usize, usize)> = None;
+        if rng.chance(1, 5) {
+            let x = rng.usize(n);
+            let ns: Vec<usize> = adj[x].iter().copied().collect();
+            if ns.len() >= 2 {
+                let y = ns[rng.usize(ns.len())];
+                let mut seen2 = HashSet::from([0usize]);
+                let mut stack2 = vec![0usize];
+                while let Some(u) = stack2.pop() {
+                    for v in &adj[u] {
+                        if (u == x && *v == y) || (u == y && *v == x) {
+                            continue;
+                        }
+                        if seen2.insert(*v) {
+                            stack2.push(*v);
+                        }
+                    }
+                }
+                if seen2.len() == n {
+                    let py = rig.peer(y);
+                    rig.gs(x).blacklist_peer(&py);
+                    blacklisted = Some((x, y));
+                }
+            }
+        }
         // publish phase
         let m = rng.range(2, 8) as usize;
         let mut publisher: BTreeMap<Vec<u8>, usize> = BTreeMap::new();
@@ -296,7 +323,12 @@ pub fn run(args: &Args) -> i32 {
                 publisher.insert(data, t);
                 sig.push_u64(100 + x as u64);
             } else {
-                let p = rng.usize(n);
+                // a blacklisted peer's own messages are refused by the blacklisting node (and never pass through it): the
+                // blacklisted node relays, it does not publish
+                let mut p = rng.usize(n);
+                if blacklisted.map(|(_, y)| y) == Some(p) {
+                    p = (p + 1) % n;
+                }
                 match rig.gs(p).publish(topic.clone(), data.clone()) {
                     Ok(_) => {
                         publisher.insert(data, p);
@@ -365,7 +397,7 @@ pub fn run(args: &Args) -> i32 {
                 }
             }
         }
-        let wit = json!({"case": case_idx, "nodes": n, "taps": tap_links.iter().map(|(t, l)| format!("{t}->{l:?}")).collect::<Vec<_>>(), "validating": validating, "random_author": random_author, "edges_whose_first_connection_was_replaced": replaced_edges, "edges": edges.iter().map(|(a, b)| format!("{a}-{b}")).collect::<Vec<_>>(),
+        let wit = json!({"case": case_idx, "nodes": n, "taps": tap_links.iter().map(|(t, l)| format!("{t}->{l:?}")).collect::<Vec<_>>(), "validating": validating, "node_blacklists_neighbour": blacklisted.map(|(x, y)| format!("{x} blacklists {y}")), "random_author": random_author, "edges_whose_first_connection_was_replaced": replaced_edges, "edges": edges.iter().map(|(a, b)| format!("{a}-{b}")).collect::<Vec<_>>(),
             "publishers": publisher.iter().map(|(d, p)| format!("{}@{p}", String::from_utf8_lossy(d))).collect::<Vec<_>>(),
             "received": (0..n).map(|i| { let mut v: Vec<String> = received[i].iter().map(|(d, c)| format!("{}x{c}", String::from_utf8_lossy(d))).collect(); v.sort(); v }).collect::<Vec<_>>()});
         for (i, d) in &dup {
@@ -389,6 +421,7 @@ pub fn run(args: &Args) -> i32 {
         check.count("messages_published", publisher.len() as u64);
         check.count("application_deliveries", received.iter().map(|r| r.values().map(|c| *c as u64).sum::<u64>()).sum());
         check.count("cases_with_taps", (!tap_links.is_empty()) as u64);
+        check.count("cases_with_a_blacklisted_mesh_neighbour", blacklisted.is_some() as u64);
         check.count("cases_with_random_author", random_author as u64);
         check.count("edges_whose_first_connection_was_replaced", replaced_edges.len() as u64);
         check.count("cases_with_validating_nodes", validating.iter().any(|v| *v) as u64);
